@@ -101,6 +101,21 @@ Definition run_list_random (rng : list (Z * Z)) (story_seed previous_random : Z)
 Definition run_random (rng : list (Z * Z)) (story_seed previous_random : Z) (o_min o_max : obj) : text :=
   render (do cr <- random_cmd int_sem_now ovf (tbl_rng rng) story_seed previous_random o_max o_min;
           Ok (show_Z (fst cr))).
+(* ev SEED srnd pop MIN MAX rnd pop MIN MAX rnd out /ev : the second draw *)
+Definition run_srnd_rnd2 (rng : list (Z * Z)) (seed o_min o_max : obj) : text :=
+  render (do sp <- seed_random_cmd seed;
+          do r1 <- random_cmd int_sem_now ovf (tbl_rng rng) (fst sp) (snd sp) o_max o_min;
+          do r2 <- random_cmd int_sem_now ovf (tbl_rng rng) (fst sp) (snd r1) o_max o_min;
+          Ok (show_Z (fst r2))).
+
+(* ev SEED srnd pop LIST lrnd pop MIN MAX rnd out /ev *)
+Definition run_srnd_lrnd_rnd (rng : list (Z * Z)) (seed l o_min o_max : obj) : text :=
+  render (do sp <- seed_random_cmd seed;
+          do a <- push_obj l;
+          do vr <- list_random_o oo int_sem_now ovf (tbl_rng rng) defs (fst sp) (snd sp) a;
+          do _ <- push_obj (OVal (fst vr));
+          do r <- random_cmd int_sem_now ovf (tbl_rng rng) (fst sp) (snd vr) o_max o_min;
+          Ok (show_Z (fst r))).
 End Run.
 
 (* every outcome over the six iteration orders ord_k 0..5, separated by \u{3} *)
@@ -109,8 +124,18 @@ Fixpoint dedup_text (l : list text) : list text :=
   | [] => []
   | x :: r => x :: filter (fun y => negb (text_eqb x y)) (dedup_text r)
   end.
+(* a second family: every map with the same key set iterates in the same order (keys
+   sorted, then permuted) — the first family permutes the arrangement it is given *)
+Definition key_cmp (a b : listitem * Z) : comparison :=
+  match opt_text_cmp (it_origin (fst a)) (it_origin (fst b)) with
+  | Eq => text_cmp (it_name (fst a)) (it_name (fst b))
+  | c => c
+  end.
+Definition ord_c (k : nat) : order_oracle :=
+  mkOrd (fun l => perm_k k (sort_by key_cmp l))
+        (fun l => perm_k k (sort_by (fun a b : text * Z => text_cmp (fst a) (fst b)) l)).
 Definition all_orders (f : order_oracle -> text) : text :=
-  join_with [3%N] (dedup_text (map (fun k => f (ord_k k)) (seq 0 6))).
+  join_with [3%N] (dedup_text (map (fun k => f (ord_k k)) (seq 0 6) ++ map (fun k => f (ord_c k)) (seq 0 6))).
 
 (* F32.v tie: primitive operations on bit patterns, rendered as decimal numbers *)
 Definition run_f32 (op : text) (a b : Z) : text :=
